@@ -66,6 +66,15 @@ from .sequence import Sequence
 
 from .localciderExceptions import WLException
 
+# --- verification hook: inactive unless LOCALCIDER_VERIF=1 ---
+_VERIF_ON = os.environ.get('LOCALCIDER_VERIF') == '1'
+_VERIF_EVENTS = []
+
+
+def _verif_emit(ev):
+    _VERIF_EVENTS.append(ev)
+
+
 
 class WangLandauMachine:
     """
@@ -578,6 +587,14 @@ class WangLandauMachine:
 
         # get histogram bin index of original (old) sequence kappa
         idx_old = np.argmin(abs(bincts - kold))
+        if _VERIF_ON:
+            _verif_emit({'ev': 'init', 'input': self.seq.seq, 'start': oseq.seq, 'kold': float(kold),
+                         'idx_old': int(idx_old), 'bincts': [float(x) for x in bincts],
+                         'nbins_actual': int(self.nbins_actual), 'nbins_target': int(self.nbins_target),
+                         'rmin': int(self.relevant_min), 'rmax': int(self.relevant_max),
+                         'nflatchk': int(self.nflatchk), 'flatcrit': float(self.flatcrit),
+                         'convergence': float(self.convergence), 'f': float(f),
+                         'frozen': sorted(int(x) for x in self.frozen)})
 
         startTime = t.time()
         reject = 0
@@ -603,6 +620,9 @@ class WangLandauMachine:
             p_cluster_charges = 78.2 / (1+41.5+69.3+78.2)
 
             r = rand.random()
+            if _VERIF_ON:
+                _verif_from = (oseq.seq, int(idx_old))
+                _verif_acc = False
             if r < p_full_shuffle:
                 nseq = oseq.full_shuffle(self.frozen)
             elif r < (p_swap_charges+p_full_shuffle):
@@ -617,6 +637,8 @@ class WangLandauMachine:
 
             # get the histogram index of that new kapp
             idx_new = np.argmin(abs(bincts - knew))
+            if _VERIF_ON:
+                _verif_prop = (nseq.seq, float(knew), int(idx_new))
 
             ###############################################################
             #                WL Acceptance Criterion                      #
@@ -651,6 +673,8 @@ class WangLandauMachine:
             # ACCEPTANCE REGION
             # if we accept the move
             if(rand.random() < acceptProb):
+                if _VERIF_ON:
+                    _verif_acc = True
 
                 #
                 # I think the following if/else means we write every seqlen^2
@@ -690,6 +714,12 @@ class WangLandauMachine:
                 H[idx_old] = H[idx_old] + 1
 
             # increment the number of steps taken
+            if _VERIF_ON:
+                _verif_emit({'ev': 'step', 'r': float(r), 'from': _verif_from[0], 'idx_from': _verif_from[1],
+                             'prop': _verif_prop[0], 'knew': _verif_prop[1], 'idx_new': _verif_prop[2],
+                             'skip': bool(skip), 'acceptProb': float(acceptProb), 'acc': _verif_acc,
+                             'cur': oseq.seq, 'idx_old': int(idx_old), 'f': float(f), 'nstep': int(nstep),
+                             'g': [float(x) for x in g], 'H': [int(x) for x in H]})
             nstep = nstep + 1
 
             # if we're at a flatcheck
@@ -736,6 +766,9 @@ class WangLandauMachine:
         globalEndTime = t.time()
         print("Total Run Time in Seconds")
         print((globalEndTime - globalStartTime))
+        if _VERIF_ON:
+            _verif_emit({'ev': 'end', 'f': float(f), 'niter': int(niter), 'g': [float(x) for x in g],
+                         'bincts': [float(x) for x in bincts]})
         return np.vstack((bincts, g))
         # close while loop
 
@@ -945,6 +978,9 @@ class WangLandauMachine:
             if(f > self.convergence):
                 self.writeLog(hlog, "\niter %d:\n" % (niter + 1))
 
+        if _VERIF_ON:
+            _verif_emit({'ev': 'flat', 'Hlocal': [int(x) for x in Hlocal], 'nflat': int(flatness_number),
+                         'f': float(f), 'niter': int(niter), 'H': [int(x) for x in H], 'g': [float(x) for x in g]})
         return(H, f, niter, 0)
 
     #...................................................................................#
